@@ -365,6 +365,10 @@ class RetrieveManual(Contract):
                 lambda ctx, v: self.cut(ctx, v, "phid",
                                         lambda x: z3.And(self.in_old(x), z3.Not(self.visible(x))),
                                         "phid holds exactly the remembered ids that are hidden now"),
+            "all_idx = list(set(pbool + phid))":
+                lambda ctx, v: self.cut(ctx, v, "all_idx",
+                                        lambda x: z3.Or(self.excluded(x), z3.And(self.in_old(x), z3.Not(self.visible(x)))),
+                                        "all_idx holds exactly the ids excluded now and the remembered hidden ids"),
         }
         self._pending = []
 
@@ -429,7 +433,8 @@ class RetrieveManual(Contract):
         visible = lambda t: z3.Exists([k], z3.And(k >= 0, k < g.n.e, root_of(k) == t))   # noqa
         excluded = lambda t: z3.Exists([k], z3.And(k >= 0, k < g.n.e, z3.Not(g.manual.sel(k)), root_of(k) == t))   # noqa
         in_old = lambda t: z3.Exists([j], z3.And(j >= 0, j < g.pold.n, g.pold.sel(j) == t))   # noqa
-        in_res = lambda t: z3.Exists([j], z3.And(j >= 0, j < res.n, res.sel(j) == t))   # noqa
+        from pyvc.models import member_pred
+        in_res = member_pred(res)      # membership in the returned list (P-SET: list(S)/sorted(S) enumerate S)
         allman = z3.ForAll([k], z3.Implies(z3.And(k >= 0, k < g.n.e), g.manual.sel(k)))
         active = z3.And(z3.Not(to_z3(g.changed, "bool")), z3.Not(allman))
         return [("every remembered id is excluded now, or was remembered and is hidden now",
